@@ -19,7 +19,6 @@ from .. import links_util as lu
 from . import c02
 
 PROP = "C10"
-SIG_VERKEY = "removed-node-key-equals-version"
 
 
 class _GatePassed(Exception):
@@ -98,7 +97,7 @@ def check_missing(inp, exp, obs, links, full, blocks=None):
             if (tuple(e) in bonded) == (e in obs["missing"]):
                 diffs.append("written .itp: residues %s are %s by an interaction and %s" % (
                     e, "joined" if tuple(e) in bonded else "not joined", "reported missing" if e in obs["missing"] else "not reported"))
-        # exact classifier of the open finding: the written interactions are those TLC computed for the confused write-back
+        # recogniser of the repaired finding F17: the written interactions are those TLC computed for the confused write-back
         known = bool(diffs) and bool(exp.get("verkeydiffers")) and lu.itp_interactions(inp, blocks, obs["itp"])[0] == lu.canon_ints(exp["verkey"])
     return diffs, known
 
@@ -121,7 +120,7 @@ def _chunk(arg):
             diffs, known = check_missing(inp, exp, obs, ff["links"], True, ff["blocks"])
             # a reader of a topology joins atoms by bonds (constraints, virtual sites): the gate is asserted where links make bonds only
             bonds_only = all(x["kind"] == "bonds" for l in ff["links"] for x in l["inters"])
-            if not diffs and "exception" not in obs and _edges_are_written(ff["links"]) and bonds_only and not exp.get("verkeydiffers"):
+            if not diffs and "exception" not in obs and _edges_are_written(ff["links"]) and bonds_only:
                 g = gate(obs["itp"], wd)
                 ngate += 1
                 want = "passed" if exp["connected"] else "raised"
@@ -154,8 +153,8 @@ def replay_family(ck, fam, res, tier, rng, n_proc, n_gp):
             case = dec[idx]
             ck.violation({"kind": "S->I replay", "family": fam, "syntax": syntax, "mode": mode, "input": case["input"], "ff": ffs[case["input"]["ff"] - 1],
                           "expected": {k: case["expected"][k] for k in ("missing", "connected", "edges", "removed", "verkeydiffers", "verkey", "ints")}, "observed": obs,
-                          "differences": diffs}, sig=SIG_VERKEY if known else None,
-                         what="family %s case %d (%s, %s): %s" % (fam, idx, syntax, mode, "; ".join(diffs[:3])))
+                          "differences": diffs},
+                         what="family %s case %d (%s, %s): %s%s" % (fam, idx, syntax, mode, "; ".join(diffs[:3]), c02.F17_NOTE if known else ""))
     ck.replayed += len(dec)
     ck.extra["gen_params_runs"] = ck.extra.get("gen_params_runs", 0) + len(pick_g)
     for i, case in dec.items():
